@@ -155,8 +155,9 @@ def ensure_model():
     srcs = []
     for root, _, fs in os.walk(os.path.join(COQ, 'Model')):
         srcs += [os.path.join(root, f) for f in fs if f.endswith('.v')]
-    srcs += [os.path.join(COQ, 'Base', f) for f in os.listdir(os.path.join(COQ, 'Base')) if f.endswith('.v')]
-    srcs += [os.path.join(VERIF, 'ocaml', f) for f in ('driver.ml', 'zio_pure.ml', 'zio_fast.ml', 'build.sh')]
+    for d in ('Base', 'Codec', 'Ring', 'Extract'):
+        srcs += [os.path.join(COQ, d, f) for f in os.listdir(os.path.join(COQ, d)) if f.endswith('.v')]
+    srcs += [os.path.join(VERIF, 'ocaml', f) for f in ('driver.ml', 'zio_pure.ml', 'zio_fast.ml', 'model_z.ml', 'build.sh')]
     with Lock('coq'):
         newest = max(os.path.getmtime(p) for p in srcs)
         if not os.path.exists(drv) or os.path.getmtime(drv) < newest or \
